@@ -118,7 +118,9 @@ def gen_struct(rng, opts, lo=0, hi=4, used=None):
     used = set() if used is None else used
     members = []
     for _ in range(rng.randint(lo, hi)):
-        members.append({ident(rng, used, pool=['x', 'len', 'msg', 'id', 'int', 'for', 'ts', 'ctx', 'a_b']): {'field-type': gen_member_ft(rng, opts)}})
+        members.append({ident(rng, used, pool=['x', 'len', 'msg', 'id', 'int', 'for', 'ts', 'ctx', 'a_b',
+                                              # names barectf itself uses for packet header / event header members (valid user names elsewhere)
+                                              'magic', 'uuid', 'stream_id', 'timestamp', 'magic', 'uuid', 'stream_id']): {'field-type': gen_member_ft(rng, opts)}})
     st = {'class': rng.choice(['struct', 'structure']), 'members': members}
     if rng.random() < 0.3:
         st['minimum-alignment'] = pow2(rng, 0, 6)
